@@ -524,6 +524,49 @@ theorem relru_fixed (sa : Bool) (p : Parts) (hwf : wfParts p = true)
     rw [hostSplit_plain sp hp'', hostSplit_plain sp hp]
     simp only [splitSuffixParsed, hpy']
 
+/-- **fixed point, `%` in a plain host included**: where `wfHostSA` fails (suffix-aware, a plain
+host with `%`: `.hostname` keeps the case of what follows the `%`, the re-assembled host is
+lower-cased) the public-suffix split is the same again by C08's case clause `SplitCaseInv` -/
+theorem relru_fixed_caseinv (sa : Bool) (p : Parts) (hwf : wfParts p = true)
+    (hci : sa = true → wfHostSA p.netloc = false → SplitCaseInv sp p.netloc) :
+    lruStems sp sa (expectedParts sp sa p) = lruStems sp sa p := by
+  cases hsa : wfHostSA p.netloc with
+  | true => exact relru_fixed sp sa p hwf (fun _ => hsa)
+  | false =>
+    have hwf0 := hwf
+    simp only [wfParts, Bool.and_eq_true] at hwf
+    obtain ⟨hn, hpath⟩ := hwf
+    obtain ⟨hh', hat'⟩ := expectedHost_shape sp sa p.netloc hn
+    obtain ⟨c1, c2, c3, c4, c5, c6⟩ := canonNetloc_components hn hh' hat'
+    obtain ⟨_, _, _, hh, _⟩ := wfNetloc_shape hn
+    apply relru_fixed_of_split sp sa p hwf0
+    intro hsat
+    subst hsat
+    rcases hh with ⟨inner, hin, hnb⟩ | hp
+    · rw [wfHostSA_bracketed hin] at hsa; cases hsa
+    · have hplain' : Plain (expectedHost sp true p.netloc) ∧
+          lower (expectedHost sp true p.netloc) = lower (specHost p.netloc) := by
+        unfold expectedHost
+        split
+        · exact ⟨Ural.LruString.plain_lower hp, lower_idem _⟩
+        · exact ⟨hp, rfl⟩
+      have hp'' : Plain (specHost (canonNetloc p.netloc (expectedHost sp true p.netloc))) := by
+        rw [c3]; exact hplain'.1
+      rw [hostSplit_plain sp hp'', hostSplit_plain sp hp]
+      -- both `.hostname`s hold the `%`: not empty, not special
+      have hpct := percent_mem_of_not_wfHostSA hp hsa
+      have hpct' : '%' ∈ specHost (canonNetloc p.netloc (expectedHost sp true p.netloc)) := by
+        rw [c3]
+        have := mem_lower_of_mem (x := '%') (by decide) hpct
+        rw [← hplain'.2] at this
+        exact mem_of_mem_lower (by decide) this
+      obtain ⟨n1, s1⟩ := pyHostname_percent_plain hn hp hpct
+      obtain ⟨n2, s2⟩ := pyHostname_percent_plain c1 hp'' hpct'
+      simp only [splitSuffixParsed, n1, n2, s1, s2, if_false, Bool.false_eq_true]
+      apply hci rfl hsa _ _ s2 s1
+      rw [lower_pyHostname_plain c1 hp'', c3, lower_pyHostname_plain hn hp]
+      exact hplain'.2
+
 /-! ## non-vacuity -/
 
 /-- a concrete split function for the examples: `co.uk` and `com` are suffixes -/
@@ -588,6 +631,11 @@ open Ural.LruString Ural.UrlRoundTrip
 
 /-- C08's clause at the URL `u` -/
 def SplitRejoinsUrl (u : Str) : Prop := ∀ p, urlParts u = some p → SplitRejoins sp p.netloc
+
+/-- C08's case clause at the URL `u` — asked only where it is needed: suffix-aware mode and a
+plain host with `%` -/
+def SplitCaseInvUrl (u : Str) : Prop :=
+  ∀ p, urlParts u = some p → wfHostSA p.netloc = false → SplitCaseInv sp p.netloc
 
 /-- a URL without `|` has components without `|` -/
 theorem noBar_of_url {u : Str} {p : Parts} (hp : urlParts u = some p) (hbar : '|' ∉ u) :
@@ -659,29 +707,23 @@ theorem serialization_string (sa : Bool) (u : Str) (hbar : '|' ∉ u)
 
 /-! ### the class -/
 
-theorem inClass_iff {sa : Bool} {u : Str} :
-    inClass sa u = true ↔ ∃ p, urlParts u = some p ∧ inClassParts sa p = true := by
+theorem inClass_iff {u : Str} :
+    inClass u = true ↔ ∃ p, urlParts u = some p ∧ inClassParts p = true := by
   unfold inClass
   cases urlParts u with
   | none => simp
   | some p => simp
 
-structure ClassFacts (sa : Bool) (p : Parts) : Prop where
+structure ClassFacts (p : Parts) : Prop where
   nobar : noBar p = true
   wf : wfNetloc p.netloc = true
   host : specHost p.netloc ≠ []
   auth : noneOf ['[', ']'] ((authOf p.netloc).getD []) = true
-  saok : sa = true → wfHostSA p.netloc = true
 
-theorem classFacts {sa : Bool} {p : Parts} (h : inClassParts sa p = true) : ClassFacts sa p := by
-  simp only [inClassParts, Bool.and_eq_true, bne_iff_ne, ne_eq, Bool.or_eq_true,
-    Bool.not_eq_true'] at h
-  obtain ⟨⟨⟨⟨h1, h2⟩, h3⟩, h4⟩, h5⟩ := h
-  refine ⟨h1, h2, h3, h4, ?_⟩
-  intro hsa
-  rcases h5 with h5 | h5
-  · rw [hsa] at h5; cases h5
-  · exact h5
+theorem classFacts {p : Parts} (h : inClassParts p = true) : ClassFacts p := by
+  simp only [inClassParts, Bool.and_eq_true, bne_iff_ne, ne_eq] at h
+  obtain ⟨⟨⟨h1, h2⟩, h3⟩, h4⟩ := h
+  exact ⟨h1, h2, h3, h4⟩
 
 /-- **C08's clause is enough on the class**, and for EVERY bracketed literal — pure IPv6,
 embedded IPv4, zone id, IPvFuture, whatever public suffix its text may end with —: `split_suffix`
@@ -699,17 +741,18 @@ theorem splitLaw_bracketed (n : Str) (hb : ((specHost n).head? == some '[') = tr
   rw [hb] at hds
   cases hds
 
-/-- the fixed-point theorem on the class (component level): every bracketed literal, and plain
-hosts without `%` when suffix-aware (`relru_fixed` under the name the string-level theorems use) -/
+/-- the fixed-point theorem on the class (component level): every bracketed literal without
+consulting `split_suffix`, every plain host without `%`, and plain hosts with `%` given C08's
+case clause (`relru_fixed_caseinv` under the name the string-level theorems use) -/
 theorem relru_fixed_class (sa : Bool) (p : Parts) (hwf : wfParts p = true)
-    (hsa : sa = true → wfHostSA p.netloc = true) :
+    (hci : sa = true → wfHostSA p.netloc = false → SplitCaseInv sp p.netloc) :
     lruStems sp sa (expectedParts sp sa p) = lruStems sp sa p :=
-  relru_fixed sp sa p hwf hsa
+  relru_fixed_caseinv sp sa p hwf hci
 
 /-- **URL → LRU → URL is lossless, on URL strings** (the parser inside the model).  For every
 string `u` of the class `inClass` (the parser accepts `ensure_protocol(u)`; no `|`; netloc in
-the grammar `wfNetloc`; a host; no raw bracket in the userinfo; suffix-aware: no `%` in a plain
-host — every bracketed literal is in, `split_suffix` is not consulted), both modes:
+the grammar `wfNetloc`; a host; no raw bracket in the userinfo — every bracketed literal is in,
+`split_suffix` is not consulted), both modes:
 
 * `lru_to_url(lru_stems(u))` and `lru_to_url(url_to_lru(u))` return the same string `back`;
 * **`urlsplit(back)` is exactly `expectedParts`** — the scheme, path (with its empty segments),
@@ -719,9 +762,10 @@ host — every bracketed literal is in, `split_suffix` is not consulted), both m
 * `ensure_protocol` leaves `back` alone, so `lru_stems(back)` / **`url_to_lru(back)` is the same
   LRU again**.
 
-Suffix-aware mode: given C08's clause at `u`. -/
-theorem roundtrip_string_partial (sa : Bool) (u : Str) (hc : inClass sa u = true)
-    (hs : sa = true → SplitRejoinsUrl sp u) :
+Suffix-aware mode: given C08's clause at `u` and, when the host is a plain host with `%`, C08's
+case clause at `u` (`SplitCaseInvUrl`; for the fixed-point part only). -/
+theorem roundtrip_string_partial (sa : Bool) (u : Str) (hc : inClass u = true)
+    (hs : sa = true → SplitRejoinsUrl sp u) (hci : sa = true → SplitCaseInvUrl sp u) :
     ∃ p back,
       urlParts u = some p ∧ lruStemsUrl sp sa u = some (lruStems sp sa p) ∧
       urlToLru sp sa u = some (serializeLru (lruStems sp sa p)) ∧
@@ -761,7 +805,7 @@ theorem roundtrip_string_partial (sa : Bool) (u : Str) (hc : inClass sa u = true
     unfold lruStemsUrl
     rw [hparts, hp]
     simp only [Option.map_some]
-    rw [relru_fixed_class sp sa p hwfp c.saok]
+    rw [relru_fixed_class sp sa p hwfp (fun h => hci h p hp)]
   refine ⟨p, renderParts (expectedParts sp sa p), hp, by simp [lruStemsUrl, hp],
     by simp [urlToLru, lruStemsUrl, hp], h2, h1, ?_, hparts, hstems, ?_⟩
   · unfold reparse
@@ -817,9 +861,12 @@ theorem accessors_roundtrip (sa : Bool) (p : Parts) (hwf : wfNetloc p.netloc = t
 every `u` of the class, `B = urlsplit(lru_to_url(url_to_lru(u)))` has the scheme, path, query
 and fragment of `A = urlsplit(ensure_protocol(u))`, `B.hostname == A.hostname`,
 `B.port == A.port`, `B.username` / `B.password` those of `A` up to empty ≡ absent; the host as
-written is kept (lower-cased when suffix-aware and the host has a public suffix) -/
-theorem accessors_string_partial (sa : Bool) (u : Str) (hc : inClass sa u = true)
-    (hs : sa = true → SplitRejoinsUrl sp u) :
+written is kept (lower-cased when suffix-aware and the host has a public suffix).  Suffix-aware
+mode: a plain host has no `%` (`hpct`; outside it `B.hostname == A.hostname` really fails, see
+the example below — CPython does not lower-case what follows a `%`) -/
+theorem accessors_string_partial (sa : Bool) (u : Str) (hc : inClass u = true)
+    (hs : sa = true → SplitRejoinsUrl sp u)
+    (hpct : sa = true → ∀ p, urlParts u = some p → wfHostSA p.netloc = true) :
     ∃ A B back,
       urlParts u = some A ∧ lruToUrlStr (serializeLru (lruStems sp sa A)) = .ok back ∧
       reparse back = some B ∧
@@ -829,11 +876,12 @@ theorem accessors_string_partial (sa : Bool) (u : Str) (hc : inClass sa u = true
       (Py.password B.netloc).getD [] = (Py.password A.netloc).getD [] ∧
       specHost B.netloc = expectedHost sp sa A.netloc ∧ specPort B.netloc = specPort A.netloc := by
   obtain ⟨p, back, hp, _, _, _, h5, h6, _⟩ := roundtrip_string_partial sp sa u hc hs
+    (fun hsat q hq hf => by rw [hpct hsat q hq] at hf; cases hf)
   obtain ⟨q, hq, hcp⟩ := inClass_iff.1 hc
   rw [hp] at hq
   cases hq
   have c := classFacts hcp
-  obtain ⟨e1, e2, _, e4, e5⟩ := accessors_roundtrip sp sa p c.wf c.saok
+  obtain ⟨e1, e2, _, e4, e5⟩ := accessors_roundtrip sp sa p c.wf (fun h => hpct h p hp)
   obtain ⟨hh', hat'⟩ := expectedHost_shape sp sa p.netloc c.wf
   obtain ⟨_, _, c3, c4, _⟩ := canonNetloc_components c.wf hh' hat'
   exact ⟨p, expectedParts sp sa p, back, hp, h5, h6, rfl, rfl, rfl, rfl, e1, e2, e4, e5, c3, c4⟩
@@ -842,8 +890,29 @@ theorem accessors_string_partial (sa : Bool) (u : Str) (hc : inClass sa u = true
 
 def demoUrl : Str := "HTTP://u:p@WWW.A.CO.UK:80/x//y/?q#f".toList
 
-example : inClass true demoUrl = true ∧ inClass false demoUrl = true := by
-  decide +kernel
+example : inClass demoUrl = true := by decide +kernel
+
+/-- the hypotheses of the suffix-aware theorems hold at `demoUrl` for `demoSplit` -/
+example : SplitRejoinsUrl demoSplit demoUrl ∧ SplitCaseInvUrl demoSplit demoUrl := by
+  have hp : urlParts demoUrl = some demo1 := by decide +kernel
+  constructor
+  · intro p h
+    rw [hp] at h
+    cases h
+    intro d s hds
+    have e : pyHostname demo1.netloc = "www.a.co.uk".toList := by decide +kernel
+    rw [e] at hds ⊢
+    have : demoSplit "www.a.co.uk".toList = some ("www.a".toList, "co.uk".toList) := by decide +kernel
+    rw [this] at hds
+    simp only [Option.some.injEq, Prod.mk.injEq] at hds
+    obtain ⟨rfl, rfl⟩ := hds
+    decide +kernel
+  · intro p h hf
+    rw [hp] at h
+    cases h
+    have : wfHostSA demo1.netloc = true := by decide +kernel
+    rw [this] at hf
+    cases hf
 
 example : urlToLru demoSplit true demoUrl =
     some "s:http|t:80|h:co.uk|h:a|h:www|p:x|p:|p:y|p:|q:q|f:f|u:u|w:p|".toList := by decide +kernel
@@ -853,11 +922,11 @@ example : (urlToLru demoSplit true demoUrl).bind (fun l => (lruToUrlStr l).toOpt
 
 /-- scheme-less input, `:` and `@` in the path, password without user, bracketed IPv6 with a port,
 zone id, tab inside, empty user -/
-example : inClass false "localhost:8080/a:b@c".toList = true ∧
-    inClass true "//:pw@[2001:db8::1]:8080/a".toList = true ∧
-    inClass true "http://[fe80::1%25eth0]:22/".toList = true ∧
-    inClass true "ht\ttp://a.com/x".toList = true ∧
-    inClass true "http://@A.COM:/".toList = true := by decide +kernel
+example : inClass "localhost:8080/a:b@c".toList = true ∧
+    inClass "//:pw@[2001:db8::1]:8080/a".toList = true ∧
+    inClass "http://[fe80::1%25eth0]:22/".toList = true ∧
+    inClass "ht\ttp://a.com/x".toList = true ∧
+    inClass "http://@A.COM:/".toList = true := by decide +kernel
 
 /-- the full statement: every `|`-free URL string the parser accepts (C08's clause granted) -/
 def FullRoundtripString : Prop :=
@@ -888,14 +957,18 @@ example : ((lruStemsUrl demoSplit false "http://a.com:80:90/".toList).bind
     some { scheme := "http".toList, netloc := "a.com".toList, path := "/".toList, query := [],
            fragment := [] } := by decide +kernel
 
-/-- a split function answering like the real trie on the text of a zone id, of an IPvFuture
-literal, and on a plain host with `%` -/
+/-- a split function answering like the real trie on the text of a zone id and of an IPvFuture
+literal -/
 def zoneSplit (h : Str) : Option (Str × Str) :=
   if h = "::1%a.co.uk".toList then some ("::1%a".toList, "co.uk".toList)
   else if h = "fe80::1%Eth0.com".toList then some ("fe80::1%eth0".toList, "com".toList)
   else if h = "v1.a.com".toList then some ("v1.a".toList, "com".toList)
-  else if h = "a%B.com".toList then some ("a%b".toList, "com".toList)
   else none
+
+/-- a split function that does not look at letter case, answering like the real trie on a plain
+host with `%` -/
+def pctSplit (h : Str) : Option (Str × Str) :=
+  if lower h = "a%b.com".toList then some ("a%b".toList, "com".toList) else none
 
 /-- **the former witnesses of KF-C12-1 round-trip** (fixed in stems.py: a bracketed literal is
 never suffix-processed): `split_suffix` does find a public suffix at the end of the zone id /
@@ -903,7 +976,7 @@ IPvFuture text, the URLs are inside the class all the same, the literal is ONE s
 `lru_to_url(url_to_lru(u))` is `u` again — brackets, zone id and letter case kept -/
 example :
     zoneSplit (pyHostname "[::1%a.co.uk]".toList) = some ("::1%a".toList, "co.uk".toList) ∧
-    inClass true "http://[::1%a.co.uk]/x".toList = true ∧
+    inClass "http://[::1%a.co.uk]/x".toList = true ∧
     urlToLru zoneSplit true "http://[::1%a.co.uk]/x".toList =
       some "s:http|h:[::1%a.co.uk]|p:x|".toList ∧
     (urlToLru zoneSplit true "http://[::1%a.co.uk]/x".toList).bind
@@ -913,34 +986,48 @@ example :
 example :
     zoneSplit (pyHostname "[FE80::1%Eth0.com]:80".toList) =
       some ("fe80::1%eth0".toList, "com".toList) ∧
-    inClass true "http://[FE80::1%Eth0.com]:80/".toList = true ∧
+    inClass "http://[FE80::1%Eth0.com]:80/".toList = true ∧
     (urlToLru zoneSplit true "http://[FE80::1%Eth0.com]:80/".toList).bind
       (fun l => (lruToUrlStr l).toOption) = some "http://[FE80::1%Eth0.com]:80/".toList ∧
     zoneSplit (pyHostname "[v1.a.com]".toList) = some ("v1.a".toList, "com".toList) ∧
-    inClass true "http://[v1.a.com]/".toList = true ∧
+    inClass "http://[v1.a.com]/".toList = true ∧
     (urlToLru zoneSplit true "http://[v1.a.com]/".toList).bind
       (fun l => (lruToUrlStr l).toOption) = some "http://[v1.a.com]/".toList := by
   decide +kernel
 
-/-- outside `wfHostSA` (suffix-aware, `%` in a plain host): C08's clause holds and the URL comes
-back with the expected components, but the accessor form of the statement really fails —
-CPython's `.hostname` does not lower-case what follows a `%`, the suffix-aware mode does:
-`http://a%B.com/` comes back as `http://a%b.com/`, `.hostname` `a%b.com` instead of `a%B.com` -/
-example : SplitRejoins zoneSplit "a%B.com".toList ∧
-    inClass true "http://a%B.com/".toList = false ∧
-    inClass false "http://a%B.com/".toList = true ∧
-    (urlToLru zoneSplit true "http://a%B.com/".toList).bind
+/-- suffix-aware, `%` in a plain host (`wfHostSA` fails): C08's clause holds, the URL is inside
+the class and comes back with the expected components and the same LRU again
+(`roundtrip_string_partial`), but the hypothesis `hpct` of `accessors_string_partial` is really
+needed — CPython's `.hostname` does not lower-case what follows a `%`, the suffix-aware mode
+does: `http://a%B.com/` comes back as `http://a%b.com/`, `.hostname` `a%b.com` instead of
+`a%B.com` -/
+example : SplitRejoins pctSplit "a%B.com".toList ∧
+    inClass "http://a%B.com/".toList = true ∧ wfHostSA "a%B.com".toList = false ∧
+    (urlToLru pctSplit true "http://a%B.com/".toList).bind
       (fun l => (lruToUrlStr l).toOption) = some "http://a%b.com/".toList ∧
+    urlToLru pctSplit true "http://a%b.com/".toList = urlToLru pctSplit true "http://a%B.com/".toList ∧
     Py.hostname "a%B.com".toList ≠ Py.hostname "a%b.com".toList := by
-  refine ⟨?_, by decide +kernel, by decide +kernel, by decide +kernel, by decide +kernel⟩
+  refine ⟨?_, by decide +kernel, by decide +kernel, by decide +kernel, by decide +kernel,
+    by decide +kernel⟩
   intro d s h
   have e : pyHostname "a%B.com".toList = "a%B.com".toList := by decide +kernel
   rw [e] at h ⊢
-  have : zoneSplit "a%B.com".toList = some ("a%b".toList, "com".toList) := by decide +kernel
+  have : pctSplit "a%B.com".toList = some ("a%b".toList, "com".toList) := by decide +kernel
   rw [this] at h
   simp only [Option.some.injEq, Prod.mk.injEq] at h
   obtain ⟨rfl, rfl⟩ := h
   decide +kernel
+
+/-- … and C08's case clause is satisfiable there (non-vacuity of `hci`) -/
+example : SplitCaseInv pctSplit "a%B.com".toList := by
+  intro h' e _ _
+  have e2 : lower (pyHostname "a%B.com".toList) = "a%b.com".toList := by decide +kernel
+  have e3 : pctSplit (pyHostname "a%B.com".toList) = some ("a%b".toList, "com".toList) := by
+    decide +kernel
+  rw [e3]
+  unfold pctSplit
+  rw [e, e2]
+  rfl
 
 /-- a malformed authority: the real code raises `ValueError` (`urlsplit`) -/
 example : urlParts "http://[::1/x".toList = none ∧ urlParts "http://u[@a.com/".toList = none := by
